@@ -185,7 +185,7 @@ ADDENDA = {
     "C11": "Also: templates with group members finishing before the aging, or-group of a flow and an action, an action with marker-shaped / set-valued start arguments and a marker-shaped dict variable; flows ended from the outside. Also the runtime-API family: conversations through RuntimeV2_x.process_events with local actions and AddFlowsAction/RemoveFlowsAction, round-tripped (and aged) at every cut. Also flows with equal contexts at the cut, and dict variables copied by name after the cut. Also continuation trees over LLMRails.generate(state=...): every saved state may be continued again, by the same or a fresh instance; list aliases and int-keyed dicts (open findings). Also the library's flow-inspection actions (CheckValidFlowExistsAction / CheckFlowDefinedAction) asked about a flow whose only instance finished long ago, across save/restore and idle time.",
     "C12": "Also: Colang 1.0 loop bodies that end in break/return/continue or an if/else whose else branch does (not always the counter increment). Every accepted Colang 2 program is compiled a SECOND time from the same parsed flows and scanned again. Also Colang 1.0 `priority` / `meta` statements written anywhere, including nested blocks. Element kinds are judged by a whitelist of primitives (placeholders of pass / comments / doc strings accepted); compound assignments `+=`/`-=` with calls on the right-hand side. Rejected programs are initialised again on the same FlowConfig objects: rejected again, or closed.",
     "C14": "Also: the `errretry` family - decisions through RuntimeV1_0._compute_next_steps on ONE runtime object across a call that raises, compared with a fresh runtime given only the repaired history. Also expressions that begin and end with a quote character without being one string literal (ternaries, string comparisons).",
-    "C15": "Also: the multi-step generation pipeline with two text-dependent user intents (LLM-generated flows kept by the shared runtime). The embedding model is a gated suspension point of the concurrent workload too (incl. conversations opening with the same text). Also the `genflows` family: per conversation the LLM writes a different KIND of flow (spanning several turns, failing in an expression after it started, endless). Also generated steps that differ per conversation (sampling keyed on the conversation's first request) and the `overflow` family (a prompt with max_length that every conversation outgrows). Also requests abandoned (task cancelled) while an LLM call is in flight, followed by another conversation.",
+    "C15": "Also: the multi-step generation pipeline with two text-dependent user intents (LLM-generated flows kept by the shared runtime). The embedding model is a gated suspension point of the concurrent workload too (incl. conversations opening with the same text). Also the `genflows` family: per conversation the LLM writes a different KIND of flow (spanning several turns, failing in an expression after it started, endless). Also generated steps that differ per conversation (sampling keyed on the conversation's first request) and the `overflow` family (a prompt with max_length that every conversation outgrows). Also requests abandoned (task cancelled) while an LLM call is in flight, followed by another conversation. Also the v2teach family: two Colang 2 conversations on one LLMRails instance (process_events_async, own state each) in which flows are added / removed at run time (AddFlowsAction / RemoveFlowsAction); each conversation must behave as it does alone on a fresh instance.",
     "C16": "Also: sequences of 2-3 requests in ONE conversation (state object or resent messages) whose options change between requests, each judged by the table; a caller-supplied history that repeats the current user text. Also user / bot texts starting with `$`. Also sequences that pass ONE GenerationOptions object to every call (with an ill-formed request in between that is not judged itself). Also output rails whose refusal is generated by the LLM: the refusal passes the output rails a second time while the blocker's record is open (two records of one rail name), stop must stay on the blocker.",
     "C17": "Also: generated values shaped like the state serialiser's markers followed by another turn; taint in the bot-intent slot of generated flows; an evaluated marker must not reach a later LLM prompt either; later turns are compared with a control conversation (observation only). Also the literal pass-through clause on carrier sentences and the same hostile completion repeated in a later turn. Also generated number literals that overflow a double, values that try to leave an interpolating string literal, silent loops (`while True / $x = 1`) decided by a spin detector (a whole 10 s window of process CPU time without one entry into a parser/runtime function). Also message text written inline under a bot intent in the multi-step next-steps completion. Also lone surrogates (an emoji cut by a token boundary).",
     "C13": "Also a jump budget on the loops of the loader itself (rails/llm/config.py) and directed arrangements of import lines. Also a CPU-time budget (ITIMER_VIRTUAL, 40 s of the process's own CPU time inside one load) for non-termination inside a single C-level regex match.",
